@@ -61,7 +61,17 @@ def gen_junk(rng, data, offsets=None, kinds=None, fields=None):
     k = rng.choice(kinds or ["torn", "torn", "flip", "flip", "flip", "lost", "garbage", "foreign"])
     if k == "flip" and fields and rng.random() < 0.6:
         # bit rot inside a length / count / flag / id field
-        off, width, name = rng.choice(fields)
+        # sub-structure size / length / count fields are where a wrong byte re-frames everything after it
+        wts = [6 if n.endswith(".size") and not n.startswith("src") else (3 if n.rsplit(".", 1)[-1] in ("len", "size", "count", "wordlen", "loclen", "sectionCount", "wordcount", "symlen", "namelen", "flags", "id") else 1)
+               for _, _, n in fields]
+        if rng.random() < 0.5:
+            # pick the KIND of field first, so that rare structures (PCE, MRU, LP ...) are hit as often as common ones
+            kinds_present = sorted({n.split(".", 1)[-1] if n[:2].isupper() and n[2] == "." else n for _, _, n in fields})
+            kind = rng.choice(kinds_present)
+            cands = [f for f in fields if f[2] == kind or (f[2][:2].isupper() and f[2][2:] == "." + kind)]
+            off, width, name = rng.choice(cands)
+        else:
+            off, width, name = rng.choices(fields, weights=wts)[0]
         off += rng.randrange(width)
         cur = data[off]
         val = rng.choice([0, 1, 2, 4, 8, 23, max(0, cur - 1), (cur + 1) & 0xFF, cur ^ 0x80, cur ^ 0x01, 0xFF, rng.randrange(256)])
@@ -221,3 +231,11 @@ def file_data(f):
 def ext_matches(name, ext):
     import os
     return (not ext) or os.path.splitext(name)[1] == ext
+
+
+def headers_damaged_by_construction(data, junk):
+    """True when the stored bytes cannot possibly carry two decodable headers: shorter than 72 bytes, or one of the
+    two section ids (offsets 0-1 'PH', 48-49 'UH') is wrong.  Such a file is junk for EVERY mode, whatever the
+    tool under test makes of it."""
+    bad = apply_junk(data, junk)
+    return len(bad) < 72 or bad[0:2] != b"PH" or bad[48:50] != b"UH"
